@@ -100,7 +100,7 @@ CONFIGS = {
     'hist8k': dict(c=DEFAULT_ASM_DEFS + ('-DIGZIP_HIST_SIZE=8192',), asm=DEFAULT_ASM_DEFS + ('-DIGZIP_HIST_SIZE=8192',)),
     'longhuff': dict(c=DEFAULT_ASM_DEFS + ('-DLONGER_HUFFTABLE',), asm=DEFAULT_ASM_DEFS + ('-DLONGER_HUFFTABLE',)),
     'gflarge': dict(c=DEFAULT_ASM_DEFS + ('-DGF_LARGE_TABLES',), asm=DEFAULT_ASM_DEFS),
-    'asfeat6': dict(c=('-DAS_FEATURE_LEVEL=6',), asm=('-DAS_FEATURE_LEVEL=6',)),
+    'asfeat6': dict(c=('-DAS_FEATURE_LEVEL=6', '-DHAVE_AS_KNOWS_AVX512=1'), asm=('-DAS_FEATURE_LEVEL=6', '-DHAVE_AS_KNOWS_AVX512=1')),
     'asfeat4': dict(c=('-DAS_FEATURE_LEVEL=4',), asm=('-DAS_FEATURE_LEVEL=4',)),
 }
 
